@@ -192,6 +192,141 @@ fn c18_node_table_spill() -> i32 {
     }
 }
 
+/// Witness class for C17: for each tail shape, commit after the tolerated tail, reopen, and require the
+/// later transaction to be wholly there (node, property and edge).
+fn c17_commit_after_tail_shapes() -> i32 {
+    let mut bad_frame = frame(&[1, 9, 0, 0, 0, 0, 0, 0, 0]);
+    let n = bad_frame.len();
+    bad_frame[n - 1] ^= 0x40; // checksum no longer matches
+    let shapes: Vec<(&str, Vec<u8>)> = vec![
+        ("2 garbage bytes", vec![1, 2]),
+        ("8 zero bytes", vec![0u8; 8]),
+        ("11 zero bytes", vec![0u8; 11]),
+        ("4096 zero bytes", vec![0u8; 4096]),
+        ("length field 0xFFFFFFFF", vec![0xFF, 0xFF, 0xFF, 0xFF, 1, 2, 3, 4, 5]),
+        ("frame with a flipped bit", bad_frame),
+        ("header only", frame(&[1, 9, 0, 0, 0, 0, 0, 0, 0])[..8].to_vec()),
+        ("checksummed frame with an unknown record type", frame(&[0xEE, 1, 2, 3])),
+        ("checksummed frame with a one-byte ManifestSwitch body", frame(&[9])),
+        ("checksummed frame with an empty body", frame(&[])),
+    ];
+    let mut bad = 0;
+    for (name, tail) in &shapes {
+        let d = tmpdir("tail-shapes");
+        let (ndb, wal) = make_db(&d, &[10]);
+        append_bytes(&wal, tail);
+        let r = std::panic::catch_unwind(|| -> Result<(), String> {
+            use nervusdb_api::{GraphSnapshot, GraphStore};
+            {
+                let e = GraphEngine::open(&ndb, &wal).map_err(|e| format!("open failed: {e}"))?;
+                if e.lookup_internal_id(10).is_none() { return Err("committed node 10 missing after open".into()); }
+                let mut tx = e.begin_write();
+                let n = tx.create_node(20, 0).map_err(|e| e.to_string())?;
+                tx.set_node_property(n, "k".to_string(), nervusdb_api::PropertyValue::Int(42));
+                tx.create_edge(0, 7, n);
+                tx.commit().map_err(|e| format!("commit after tail failed: {e}"))?;
+            }
+            let e = GraphEngine::open(&ndb, &wal).map_err(|e| format!("second reopen failed: {e}"))?;
+            let iid = e.lookup_internal_id(20).ok_or("node 20 (committed after the tail) is gone after reopen")?;
+            let snap = e.snapshot();
+            if snap.node_property(iid, "k") != Some(nervusdb_api::PropertyValue::Int(42)) { return Err("property of node 20 (committed after the tail) is gone after reopen".into()); }
+            if snap.neighbors(0, Some(7)).count() != 1 { return Err("edge committed after the tail is gone after reopen".into()); }
+            Ok(())
+        });
+        let _ = std::fs::remove_dir_all(&d);
+        match r {
+            Ok(Ok(())) => {}
+            Ok(Err(e)) => { println!("VIOLATION reproduced: log tail = {name}: {e}"); bad += 1; }
+            Err(_) => { println!("VIOLATION reproduced: log tail = {name}: panic"); bad += 1; }
+        }
+    }
+    if bad == 0 { println!("conforms: {} tail shapes, commit-after-tail durable in each", shapes.len()); 0 } else { 1 }
+}
+
+/// Witness class for C17: a transaction that was begun and partly written but never committed (crash in
+/// the middle of commit) must not surface, neither at once nor as part of a later transaction.
+fn c17_aborted_then_commit() -> i32 {
+    let d = tmpdir("aborted");
+    let (ndb, wal) = make_db(&d, &[10, 11]);
+    // BeginTx 77, CreateEdge 0 -[5]-> 1, no CommitTx
+    let mut begin = vec![1u8]; begin.extend_from_slice(&77u64.to_le_bytes());
+    let mut edge = vec![6u8]; edge.extend_from_slice(&0u32.to_le_bytes()); edge.extend_from_slice(&5u32.to_le_bytes()); edge.extend_from_slice(&1u32.to_le_bytes());
+    append_bytes(&wal, &frame(&begin));
+    append_bytes(&wal, &frame(&edge));
+    let r = std::panic::catch_unwind(|| -> Result<(), String> {
+        use nervusdb_api::{GraphSnapshot, GraphStore};
+        {
+            let e = GraphEngine::open(&ndb, &wal).map_err(|e| format!("open failed: {e}"))?;
+            if e.snapshot().neighbors(0, Some(5)).count() != 0 { return Err("edge of the uncommitted transaction is visible after open".into()); }
+            let mut tx = e.begin_write();
+            tx.create_node(20, 0).map_err(|e| e.to_string())?;
+            tx.commit().map_err(|e| e.to_string())?;
+        }
+        let e = GraphEngine::open(&ndb, &wal).map_err(|e| format!("second reopen failed: {e}"))?;
+        if e.lookup_internal_id(20).is_none() { return Err("node committed after the aborted transaction is gone".into()); }
+        if e.snapshot().neighbors(0, Some(5)).count() != 0 { return Err("edge of the never-committed transaction became visible after a later commit and reopen".into()); }
+        Ok(())
+    });
+    let _ = std::fs::remove_dir_all(&d);
+    match r {
+        Ok(Ok(())) => { println!("conforms: the aborted transaction never surfaces"); 0 }
+        Ok(Err(e)) => { println!("VIOLATION reproduced: {e}"); 1 }
+        Err(_) => { println!("VIOLATION reproduced: panic"); 1 }
+    }
+}
+
+/// C28.csr.meta.marker_covers_writer: a database with a compacted relationship segment must vacuum and
+/// keep its edges in both directions, properties and nodes; it must stay writable afterwards.
+fn c28_vacuum_after_compact() -> i32 {
+    use nervusdb_api::{GraphSnapshot, GraphStore};
+    let d = tmpdir("c28-vacuum");
+    let ndb = d.join("t.ndb");
+    let wal = d.join("t.wal");
+    let r = std::panic::catch_unwind(|| -> Result<(), String> {
+        {
+            let e = GraphEngine::open(&ndb, &wal).map_err(|e| e.to_string())?;
+            let mut tx = e.begin_write();
+            let mut ids = Vec::new();
+            for i in 0..40u64 { ids.push(tx.create_node(100 + i, 0).map_err(|e| e.to_string())?); }
+            for i in 0..39usize { tx.create_edge(ids[i], 3, ids[i + 1]); tx.create_edge(ids[i], 4, ids[(i * 7) % 40]); }
+            tx.set_node_property(ids[5], "k".to_string(), nervusdb_api::PropertyValue::String("v".repeat(300)));
+            tx.commit().map_err(|e| e.to_string())?;
+            e.compact().map_err(|e| format!("compact failed: {e}"))?;
+            // garbage to reclaim: a second compaction leaves the first segment's pages unreferenced
+            let mut tx = e.begin_write();
+            tx.create_edge(ids[0], 9, ids[39]);
+            tx.commit().map_err(|e| e.to_string())?;
+            e.compact().map_err(|e| format!("second compact failed: {e}"))?;
+        }
+        let dump = |e: &GraphEngine| -> (Vec<usize>, Vec<usize>, Option<nervusdb_api::PropertyValue>) {
+            let s = e.snapshot();
+            let out: Vec<usize> = (0..40u32).map(|n| s.neighbors(n, None).count()).collect();
+            let inc: Vec<usize> = (0..40u32).map(|n| s.incoming_neighbors(n, None).count()).collect();
+            (out, inc, s.node_property(5, "k"))
+        };
+        let before = { let e = GraphEngine::open(&ndb, &wal).map_err(|e| e.to_string())?; dump(&e) };
+        nervusdb_storage::vacuum::vacuum_in_place(&ndb, &wal).map_err(|e| format!("vacuum failed on a database with a compacted segment: {e}"))?;
+        let e = GraphEngine::open(&ndb, &wal).map_err(|e| format!("open after vacuum failed: {e}"))?;
+        let after = dump(&e);
+        if before != after { return Err(format!("content changed by vacuum: out-degrees equal={}, in-degrees equal={}, property equal={}", before.0 == after.0, before.1 == after.1, before.2 == after.2)); }
+        let mut tx = e.begin_write();
+        let n = tx.create_node(999, 0).map_err(|e| e.to_string())?;
+        tx.create_edge(n, 3, 0);
+        tx.commit().map_err(|e| format!("write after vacuum failed: {e}"))?;
+        drop(e);
+        let e = GraphEngine::open(&ndb, &wal).map_err(|e| format!("reopen after post-vacuum write failed: {e}"))?;
+        let again = dump(&e);
+        if again.0 != before.0 || again.2 != before.2 { return Err("content changed after post-vacuum write and reopen".into()); }
+        Ok(())
+    });
+    let _ = std::fs::remove_dir_all(&d);
+    match r {
+        Ok(Ok(())) => { println!("conforms: vacuum of a twice-compacted database kept edges (both directions), property and stayed writable"); 0 }
+        Ok(Err(e)) => { println!("VIOLATION reproduced: {e}"); 1 }
+        Err(_) => { println!("VIOLATION reproduced: panic"); 1 }
+    }
+}
+
 fn main() {
     let a: Vec<String> = std::env::args().collect();
     let code = match a.get(1).map(|s| s.as_str()) {
@@ -202,6 +337,9 @@ fn main() {
         Some("c17_truncate_every_byte") => c17_truncate_every_byte(),
         Some("c17_commit_after_tail") => c17_commit_after_tail(&[0x01, 0x02]),
         Some("c18_node_table_spill") => c18_node_table_spill(),
+        Some("c28_vacuum_after_compact") => c28_vacuum_after_compact(),
+        Some("c17_commit_after_tail_shapes") => c17_commit_after_tail_shapes(),
+        Some("c17_aborted_then_commit") => c17_aborted_then_commit(),
         _ => { eprintln!("unknown scenario"); 2 }
     };
     std::process::exit(code);
